@@ -5,6 +5,8 @@ import (
 	"go/types"
 	"net/url"
 
+	"gosym/smt"
+
 	"golang.org/x/tools/go/ssa"
 )
 
@@ -95,6 +97,20 @@ func init() {
 				case at.Prov != nil && at.Prov.Fn == "PathEscape":
 					// the server sees the unescaped segment (net/http decodes URL.Path)
 					pathRope = strConcat(pathRope, at.Prov.Args[0].(StrV))
+				case at.Prov != nil && at.Prov.Fn == "QueryEscape":
+					// query escaping used in a path: net/http path-unescapes it, which undoes
+					// %XX but not the '+' a blank was turned into - the server sees the
+					// original text only if it holds no blank
+					orig := at.Prov.Args[0].(StrV)
+					seen := p.opaqueStr("PathUnescapeOfQueryEscape", []Value{orig}, orig.MaxLen())
+					noBlank := smt.True
+					for i := 0; i < orig.MaxLen(); i++ {
+						ii := smt.Int(int64(i))
+						noBlank = smt.And(noBlank, smt.Implies(smt.Lt(ii, orig.LenTerm()), smt.Not(smt.Eq(p.byteAt(orig, ii), smt.Int(' ')))))
+					}
+					p.assert(smt.Implies(noBlank, p.strEq(seen, orig)))
+					p.assert(smt.Eq(seen.LenTerm(), orig.LenTerm()))
+					pathRope = strConcat(pathRope, seen)
 				default:
 					// raw bytes spliced into a URL: only plain path bytes survive parsing unchanged
 					p.unsupported("client URL: unescaped symbolic text in the path")
